@@ -370,7 +370,13 @@ def opsvalid(eng, vs):
 def isint(eng, x):
     if isinstance(x, int):
         return True
-    return SV(z3.IsInt(zreal(x)), "bool")
+    e = zreal(x)
+    # skolem witness: if e is an integer then it is the image of some Int k (helps the solver: goals about
+    # e + 1, e + slack, -e become linear facts over k instead of floor reasoning)
+    eng.nfresh += 1
+    k = z3.Int("intwit!%d" % eng.nfresh)
+    eng.facts.add(z3.Implies(z3.IsInt(e), e == z3.ToReal(k)))
+    return SV(z3.IsInt(e), "bool")
 
 
 @spec
